@@ -12,7 +12,7 @@ import (
 func cmdCheck(prop, tier string, keep bool) int {
 	start := time.Now()
 	p := mustLoad()
-	coverClauses = tier == "thorough"
+	coverClauses = tier == "thorough" || os.Getenv("GCV_COVER") != ""
 	pr := runProperty(p, prop, tier, "")
 	coverClauses = false
 	pr.Start = start
@@ -42,7 +42,7 @@ func cmdCheck(prop, tier string, keep bool) int {
 			}
 		case "finding-not-reproduced":
 			fmt.Printf("NOTE: known finding for %s no longer reproduces inside its region\n", r.Name)
-		case "discharged", "covered":
+		case "discharged", "covered", "cover-undecided":
 		case "never-covered":
 			neverCovered = append(neverCovered, r.Name)
 			fmt.Printf("WEAK-CLAUSE %s: no execution path can satisfy the hypothesis of this postcondition (it states nothing); not a violation\n", r.Name)
